@@ -7,8 +7,8 @@ Message-mode composition for C01: the invariants behind `C01_core_msg`.
   contents `dl`, which end on a boundary (`InvMB`);
 * system: the reader has never accepted more segments than the writer has numbered (`rcv_le_log`).
 
-The facts about `Kcp.send` used here are proved from the mirror `send_eq` in a way that does not
-depend on what the refusal branch (−2) does to the queue in stream mode.
+The facts about `Kcp.send` used here are proved from the mirror `send_eq` (a refused `Send`, −2,
+takes nothing: finding F2, repaired).
 -/
 import KcpVerif.Lemmas.C01Grp
 
@@ -39,19 +39,16 @@ theorem send_msg (k : Kcp) (buf : Bytes) (hs : k.stream = 0) (hm : 0 < k.mss.toN
     rw [hse]; right
     exact ⟨show (-1 : Int) ≠ 0 by decide, rfl⟩
   · rw [if_neg c0] at hse
-    by_cases c1 : sendPanic1 k buf = true
-    · rw [if_pos c1] at hse; rw [hse] at hp; cases hp
-    · rw [if_neg c1] at hse
-      have c2 : ¬ (k.stream ≠ 0 ∧ (sendRest k buf).length = 0) := fun h => h.1 hs
-      rw [if_neg c2] at hse
-      by_cases c3 : sendCount k buf > 255
-      · rw [if_pos c3] at hse
-        rw [hse]; right
-        refine ⟨show (-2 : Int) ≠ 0 by decide, ?_⟩
-        first
-          | rfl
-          | exact sendQ1_msg k buf hs
-      · rw [if_neg c3] at hse
+    by_cases c3 : sendCount k buf > 255
+    · rw [if_pos c3] at hse
+      rw [hse]; right
+      exact ⟨show (-2 : Int) ≠ 0 by decide, rfl⟩
+    · rw [if_neg c3] at hse
+      by_cases c1 : sendPanic1 k buf = true
+      · rw [if_pos c1] at hse; rw [hse] at hp; cases hp
+      · rw [if_neg c1] at hse
+        have c2 : ¬ (k.stream ≠ 0 ∧ (sendRest k buf).length = 0) := fun h => h.1 hs
+        rw [if_neg c2] at hse
         by_cases c4 : min (sendRest k buf).length k.mss.toNat > mtuLimit
         · rw [if_pos c4] at hse; rw [hse] at hp; cases hp
         · rw [if_neg c4] at hse
